@@ -750,3 +750,82 @@ func (c *FuncCFG) boolStateSearch(starts []Point, init bool,
 	}
 	return nil
 }
+
+// mayReturnNilError reports whether a return statement of an error-returning function can
+// hand out a nil error: the nil literal, a bare return or an error variable that is not
+// tested non-nil around the statement. A constructed or
+// package-level error, or a variable returned inside its own "!= nil" branch, cannot.
+func mayReturnNilError(fn *FuncNode, ret *ast.ReturnStmt) bool {
+	res := fn.Type.Results
+	if res == nil || len(res.List) == 0 {
+		return false
+	}
+	lastField := res.List[len(res.List)-1]
+	if t := fn.Pkg.TypesInfo.TypeOf(lastField.Type); t == nil || !isErrorType(t) {
+		return false
+	}
+	if len(ret.Results) == 0 {
+		if len(lastField.Names) == 0 {
+			return false
+		}
+		o := fn.Pkg.TypesInfo.Defs[lastField.Names[len(lastField.Names)-1]]
+		return !guardedNonNil(fn, ret, o)
+	}
+	last := ast.Unparen(ret.Results[len(ret.Results)-1])
+	if isNilIdent(fn, last) {
+		return true
+	}
+	// another call's result (v.Error(), a delegated operation) is not counted: whether it
+	// can be nil is that callee's business and the rules that care name the callee
+	if _, isCall := last.(*ast.CallExpr); isCall {
+		return false
+	}
+	return !certainErr(fn, last, ret)
+}
+
+// succeedsOnlyAfter reports whether function h can return a nil error only after its
+// call tc succeeded: every exit either returns tc's own result, returns a certain error,
+// or is dominated by the nil edge of tc's error.
+func succeedsOnlyAfter(p *Prog, h *FuncNode, tc *ast.CallExpr) bool {
+	c := p.CFG(h)
+	for _, ex := range c.Exits() {
+		if ex.Return == nil {
+			return false
+		}
+		if contains(ex.Return, tc) {
+			continue
+		}
+		n := len(ex.Return.Results)
+		if n > 0 && certainErr(h, ex.Return.Results[n-1], ex.Return) {
+			continue
+		}
+		if pth, _ := c.succeededBefore(tc, ex.P); pth != nil {
+			return false
+		}
+	}
+	return true
+}
+
+// wrapperCallsOf returns the calls in fn to package-local functions that wrap target:
+// the wrapper calls target exactly once, hands its own parameter argIdx on as target's
+// argument argIdx, and succeeds only after that call succeeded.
+func wrapperCallsOf(p *Prog, fn *FuncNode, target *FuncNode, argIdx int) []*ast.CallExpr {
+	var out []*ast.CallExpr
+	for _, call := range CallsIn(fn, func(o types.Object, _ *ast.CallExpr) bool {
+		f, ok := o.(*types.Func)
+		return ok && p.ByObj[f.Origin()] != nil && p.ByObj[f.Origin()].Pkg == fn.Pkg && p.ByObj[f.Origin()] != target
+	}) {
+		h := p.ByObj[CalleeFunc(fn, call)]
+		if h == nil || h.Body == nil {
+			continue
+		}
+		tcs := CallsIn(h, calleeIs(target))
+		if len(tcs) != 1 || argIdx >= len(tcs[0].Args) || objOf(h, tcs[0].Args[argIdx]) == nil || objOf(h, tcs[0].Args[argIdx]) != paramObj(h, argIdx) {
+			continue
+		}
+		if succeedsOnlyAfter(p, h, tcs[0]) {
+			out = append(out, call)
+		}
+	}
+	return out
+}
